@@ -448,6 +448,11 @@ func (r *c18Report) violate(format string, a ...any) {
 
 func c18ChildMain() {
 	c18Silence()
+	// the library logs with fmt.Printf: keep the report channel clean
+	report := os.Stdout
+	if devnull, err := os.OpenFile(os.DevNull, os.O_WRONLY, 0); err == nil {
+		os.Stdout = devnull
+	}
 	var sc c18Scenario
 	if err := json.NewDecoder(os.Stdin).Decode(&sc); err != nil {
 		fmt.Fprintln(os.Stderr, "c18 child: bad input:", err)
@@ -471,7 +476,7 @@ func c18ChildMain() {
 		os.Exit(2)
 	}
 	rep.Done = true
-	json.NewEncoder(os.Stdout).Encode(rep)
+	json.NewEncoder(report).Encode(rep)
 }
 
 type repMu struct {
@@ -662,10 +667,25 @@ func c18LLMNRHandler(server *llmnr.Server, remote net.Addr, w llmnr.ResponseWrit
 	return true
 }
 
-func startLLMNR() (*llmnr.Server, *net.UDPAddr, chan error, error) {
-	s, err := llmnr.NewServer("udp4", []llmnr.Handler{llmnr.HandlerFunc(c18LLMNRHandler)})
+// describe: the library's own packet-describing handler (it logs under the logger's lock) runs ahead of the answering
+// handler and the server is in debug mode, as in the library's examples
+// the chain goes on to the answering handler whatever the describing handler returns
+func c18Describe(server *llmnr.Server, remote net.Addr, w llmnr.ResponseWriter, msg *llmnr.Message) bool {
+	llmnr.HandlerDescribePacket(server, remote, w, msg)
+	return true
+}
+
+func startLLMNR(describe bool) (*llmnr.Server, *net.UDPAddr, chan error, error) {
+	handlers := []llmnr.Handler{llmnr.HandlerFunc(c18LLMNRHandler)}
+	if describe {
+		handlers = []llmnr.Handler{llmnr.HandlerFunc(c18Describe), llmnr.HandlerFunc(c18LLMNRHandler)}
+	}
+	s, err := llmnr.NewServer("udp4", handlers)
 	if err != nil {
 		return nil, nil, nil, err
+	}
+	if describe {
+		s.SetDebug(true)
 	}
 	conn, err := net.ListenUDP("udp4", &net.UDPAddr{IP: net.IPv4(127, 0, 0, 1)})
 	if err != nil {
@@ -680,7 +700,7 @@ func startLLMNR() (*llmnr.Server, *net.UDPAddr, chan error, error) {
 func c18IsolationLLMNR(sc c18Scenario, rng *Rng, rep *c18Report) {
 	clients, per := c18Sizes(sc.Scale)
 	const namesPer = 16
-	s, addr, done, err := startLLMNR()
+	s, addr, done, err := startLLMNR(sc.Seed%2 == 0)
 	if err != nil {
 		rep.Notes = append(rep.Notes, "cannot start LLMNR server: "+err.Error())
 		return
@@ -1041,7 +1061,7 @@ func c18StopScenario(sc c18Scenario, rng *Rng, rep *c18Report) {
 				}
 			}
 		case "llmnr":
-			s, addr, done, err := startLLMNR()
+			s, addr, done, err := startLLMNR(true)
 			if err != nil {
 				rep.Notes = append(rep.Notes, "cannot start LLMNR server: "+err.Error())
 				return
